@@ -90,6 +90,11 @@ def s_setitem(b, t, adv_prob=0.45):
         return False
     val, refs = value_for(b, np.shape(sub), tv.dtype.kind)
     adv = not (isinstance(sub, np.ndarray) and sub.base is not None and np.shares_memory(sub, tv)) and np.size(sub) > 0 and not np.isscalar(sub)
+    if refs and isinstance(b.val(refs[0]), np.ndarray) and np.shares_memory(b.val(refs[0]), tv) and not _is_advanced(ix) \
+            and isinstance(sub, np.ndarray) and (b.val(refs[0]).shape != sub.shape or b.val(refs[0]).strides != sub.strides):
+        # ... and for basic slices NumPy only delivers 'value read first' when source and target walk memory alike: with different strides
+        # (x[2:8:2] = x[2:5]) elements written earlier are read back (observed with NumPy 2.x), again an artifact and not a specification
+        return False
     if refs and isinstance(b.val(refs[0]), np.ndarray) and np.shares_memory(b.val(refs[0]), tv) and _is_advanced(ix):
         # NumPy's own result for fancy / boolean-mask assignment from an OVERLAPPING source is an implementation artifact (not the
         # 'value is read first' semantics it guarantees for basic slices), so it cannot serve as the specification there
